@@ -553,3 +553,70 @@ def mutual_family(n, seed):
         seen.add(c)
         out.append(p)
     return out
+
+
+def single_literal_family(probs=((3, 10),)):
+    """EXHAUSTIVE: derived atoms p, x and one probabilistic fact a; every clause body is ONE literal (p, x, a or a negation);
+    1-2 clauses per derived atom in every order (42 x 42 = 1764 programs per probability); both atoms queried.  All three C02
+    classes occur; clause order matters to the engine, not to the semantics."""
+    lits = [("p", 1), ("x", 1), ("a", 1), ("p", 0), ("x", 0), ("a", 0)]
+    defs = [[l] for l in lits] + [[l1, l2] for l1 in lits for l2 in lits]
+    out = []
+    for pr in probs:
+        for dp in defs:
+            for dx in defs:
+                p = progs.empty_program(["c1"])
+                p["facts"].append({"p": list(pr), "atom": atom("a")})
+                for h, d in (("p", dp), ("x", dx)):
+                    for (f, s) in d:
+                        p["rules"].append({"head": atom(h), "body": [lit(atom(f), s)]})
+                p["queries"] = [atom("p"), atom("x")]
+                out.append(p)
+    return out
+
+
+def multirec_family(n, seed):
+    """A predicate with TWO recursive clauses and a base clause in every clause order (recursive, base, recursive; ...),
+    propositional and over an edge relation, queried ground and non-ground."""
+    import itertools
+    rng = random.Random(seed * 3571 + 5)
+    out, seen, tries = [], set(), 0
+    while len(out) < n and tries < 60 * n + 100:
+        tries += 1
+        consts = ["c1", "c2", "c3"]
+        p = progs.empty_program(consts)
+        for f in ("s", "u", "w"):
+            p["facts"].append({"p": [rng.randint(2, 8), 10], "atom": atom(f)})
+        if rng.random() < 0.5:
+            # propositional: r has no proof until the base clause is reached
+            third = rng.choice(["q", "r"])
+            cl = [{"head": atom("r"), "body": [lit(atom("q")), lit(atom("u"))]}, {"head": atom("r"), "body": [lit(atom("s"))]},
+                  {"head": atom("r"), "body": [lit(atom(third)), lit(atom("w"))]}]
+            extra = [{"head": atom("q"), "body": [lit(atom("r"))]}, {"head": atom("q"), "body": [lit(atom("w")), lit(atom("u"))]}]
+            qs = [atom("r"), atom("q")]
+        else:
+            pairs = [(a, b) for a in consts for b in consts if a != b]
+            rng.shuffle(pairs)
+            for i, (a, b) in enumerate(pairs[:rng.randint(3, 5)]):
+                f = "e" if i % 2 == 0 else "f"
+                if rng.random() < 0.6:
+                    p["facts"].append({"p": [rng.randint(3, 9), 10], "atom": atom(f, a, b)})
+                else:
+                    p["rules"].append({"head": atom(f, a, b), "body": []})
+            for f in ("e", "f"):
+                if not any(x["atom"]["f"] == f for x in p["facts"]) and not any(r["head"]["f"] == f for r in p["rules"]):
+                    p["facts"].append({"p": [5, 10], "atom": atom(f, "c1", "c2")})
+            cl = [{"head": atom("r", "X"), "body": [lit(atom("r", "Y")), lit(atom("e", "Y", "X"))]},
+                  {"head": atom("r", "c1"), "body": [lit(atom("s"))]},
+                  {"head": atom("r", "X"), "body": [lit(atom("r", "Y")), lit(atom("f", "Y", "X"))]}]
+            extra = []
+            qs = rng.sample([atom("r", "W"), atom("r", "c2"), atom("r", "c3")], rng.randint(1, 3))
+        order = list(rng.choice(list(itertools.permutations(range(3)))))
+        p["rules"] += [cl[i] for i in order] + extra
+        p["queries"] = qs
+        c = progs.canon(p)
+        if c in seen:
+            continue
+        seen.add(c)
+        out.append(p)
+    return out
